@@ -248,6 +248,11 @@ func c33Exec(src string, o c33Opts) (out *c33Outcome) {
 	defer c33runMu.Unlock()
 	out = &c33Outcome{}
 	elk.InitGlobalEnvironment()
+	// Earlier cases of this worker that reproduce a listed uncancellable operation leave tasks parked for ever on
+	// the process-wide default thread pool, which the checker also uses to expand macros: once every default worker
+	// is parked, the next program with a macro call would block in the checker (a harness artefact of running many
+	// programs in one process). Every case therefore starts with a fresh default pool; the parked workers are leaked.
+	*vm.DefaultThreadPool = *vm.NewThreadPool(vm.DEFAULT_THREAD_POOL_SIZE, vm.DEFAULT_THREAD_POOL_QUEUE_SIZE)
 	var chunk *vm.BytecodeFunction
 	func() {
 		defer func() {
